@@ -10,7 +10,7 @@ import pandas
 import scipy.sparse as spsparse
 from interface_meta import override
 
-from formulaic.utils.cast import as_columns
+from formulaic.utils.cast import as_columns, pandas_arrow_dictionary_to_categorical
 from formulaic.utils.null_handling import drop_rows as drop_nulls
 
 from .base import FormulaMaterializer
@@ -49,8 +49,31 @@ class PandasMaterializer(FormulaMaterializer):
                 values.dtype == object
                 or isinstance(values.dtype, pandas.CategoricalDtype)
                 or pandas.api.types.is_string_dtype(values.dtype)
+                or self._is_arrow_categorical(values.dtype)
             )
         return super()._is_categorical(values)
+
+    @staticmethod
+    def _is_arrow_categorical(dtype: Any) -> bool:
+        # Arrow-backed columns that hold neither numbers nor one of the string
+        # types recognised above: dictionary-encoded values (Arrow's
+        # categorical), string views and binary data.
+        if not isinstance(dtype, pandas.ArrowDtype):
+            return False
+        import pyarrow.types as pat
+
+        return any(
+            getattr(pat, check)(dtype.pyarrow_dtype)
+            for check in (
+                "is_dictionary",
+                "is_string_view",
+                "is_binary",
+                "is_large_binary",
+                "is_binary_view",
+                "is_fixed_size_binary",
+            )
+            if hasattr(pat, check)
+        )
 
     @override
     def _encode_constant(
@@ -102,6 +125,9 @@ class PandasMaterializer(FormulaMaterializer):
         # rank will be reduced in the _encode_evaled_factor method.
         from formulaic.transforms import encode_contrasts
 
+        # (before rows are dropped: an Arrow dictionary column that has lost all
+        # of its rows no longer knows its categories)
+        values = pandas_arrow_dictionary_to_categorical(values)
         if drop_rows:
             values = drop_nulls(values, indices=drop_rows)
         return as_columns(
